@@ -129,7 +129,11 @@ def image_multi(bounds=None):
 # ------------------------------------------------------------------------------------------------
 # op helpers
 
+MODES = {'ReadOnly', 'Append', 'Truncate', 'Create', 'CreateOrTruncate', 'CreateOrAppend'}
+
 def O(op, **kw):
+    # (a mode name the harness does not know would make it panic inside the call: a tool error, to be seen here, not a library panic)
+    assert op != 'open_file' or kw.get('mode') in MODES, 'scenario: unknown open mode %r' % (kw.get('mode'),)
     d_ = dict(op=op)
     for k, v in kw.items():
         d_['as' if k == 'as_' else k] = v
